@@ -787,7 +787,7 @@ func c04Run(c c04Case) verifkit.Result {
 		return out
 	}
 	fail := func(key, format string, args ...any) verifkit.Result {
-		if strings.HasPrefix(key, "value:") {
+		if strings.HasPrefix(key, "value:") && !strings.HasPrefix(key, "value:component-") {
 			key = c04ClassifyKey(env, p, key)
 		}
 		r := verifkit.Fail(key, "%s %s proto=%d id=%#x: %s", combo.State, combo.Dir, combo.Proto, int(combo.ID), fmt.Sprintf(format, args...))
